@@ -413,6 +413,7 @@ def run(prop, report, tier, seed, replay=None):
                 c['max_workers'] = rng.choice([1, 2, 3])
                 c['pre'] = []
                 c['top'] = (len(l2cases) % 3 == 1)          # the task monitor display is on in a third of the runs
+                c['progress'] = (prop == 'C11' and len(l2cases) % 4 == 1)      # ... and the progress bars (default displays)
                 if len(l2cases) % 3 == 2:
                     # wide graph: independent tasks, so that futures queue up behind the single worker slot
                     c['max_workers'], c['p_kill'] = 1, 0.5
